@@ -59,6 +59,14 @@
      C03_stale_chain: the per-handle form of C03_stale: the four min_version-only requests fail through a detached
        handle h as soon as the file sets on h's own chain are empty (ChainFiles w h; implied by DetFiles): this is the
        one fact about detached elements that is not yet carried across OpLoad.
+   Locality of loads (Tree/InvProofsLoadLocal.v): C03_merge_local — at every exit of merge_file_data (accepted or
+       rejected) every node that is neither incoming nor attached to a model is as before (Q = FR /\ KL).
+     C03_load_parsed_local / C03_load_keeps_stale: an ACCEPTED load_buffer (first file or merge) leaves every detached
+       element exactly as it was; a stale handle stays stale and the file sets on its chain stay empty.
+     C03_stale_after_load / C03_stale_histories2_then_load: so every place-dependent request through it (the four
+       min_version-only ones included) still fails after the load — e.g. after any clean op2 history without loads
+       followed by an accepted load.  Open: loads that FAIL (overlap, rejected merge: rollback + renamed file marker)
+       and the invariant form over histories with several loads (dead nodes).
    HEADLINE: C03_histories2_headline — the property text as one statement over op2 histories from the empty world
      outside Known_load_shared: Core (well-formed tree), sub_elements / parent / position agree, elements_dfs = the
      reachable elements once each in pre-order, the sub-element iterator = the content list, stale handles cannot
@@ -72,7 +80,7 @@ From AV Require Import Base.Bytes Base.Outcome Hash.HashModel Tree.Heap Tree.Ops
   Tree.InvProofsDetFiles Tree.InvProofsDetFilesMain Tree.InvProofsOp2 Tree.InvExamples
   Tree.InvProofsChars Tree.InvProofsChars5 Tree.InvProofsOrigins3 Tree.InvProofsReal Tree.InvProofsRealTables Spec.SpecReal.
 From AV Require Import Tree.Script2 Tree.InvLoad Tree.InvProofsOp2Full Tree.InvProofsLoadExamples Tree.InvProofsOp2Lift
-  Tree.InvProofsOp2Real Tree.InvEBase Tree.InvProofsLoadLive Tree.InvProofsOp2Live Tree.InvProofsOp2Rej Tree.InvE_Main Tree.InvL_Base Tree.InvL_Main Tree.InvL_Op2 Tree.InvProofsStale2 Tree.InvProofsStale2Examples Tree.InvProofsStale3 Tree.InvProofsHeadline Tree.InvProofsStale4.
+  Tree.InvProofsOp2Real Tree.InvEBase Tree.InvProofsLoadLive Tree.InvProofsOp2Live Tree.InvProofsOp2Rej Tree.InvE_Main Tree.InvL_Base Tree.InvL_Main Tree.InvL_Op2 Tree.InvProofsStale2 Tree.InvProofsStale2Examples Tree.InvProofsStale3 Tree.InvProofsHeadline Tree.InvProofsStale4 Tree.InvProofsLoadLocal.
 From AV Require Xml.TablesOk.
 From AV Require Tree.Load Tree.MergeSpec Tree.LoadProofsRefuted.
 Open Scope string_scope.
@@ -750,6 +758,68 @@ Proof. exact stale_fails_chain. Qed.
 
 Theorem C03_chainfiles_of : forall (w : world) (h : id), DetFiles w -> Detached w h -> ChainFiles w h.
 Proof. exact DetFiles_ChainFiles. Qed.
+
+(* ---------- loads are local: detached elements are not touched ---------- *)
+Theorem C03_merge_local :
+  forall (T : tables) (LATEST ndr base : N) (w0 : world) (m re fid : N),
+    base <= re ->
+    (forall x : model,
+       nth_opt (w_models w0) (N.to_nat m) = Some x -> exists k : N, Top w0 (m_root x) (PModel k)) ->
+    forall (w : world) (r : out unit) (w' : world),
+      w_models w = w_models w0 ->
+      Q base w0 w -> Load.merge_file_data T LATEST ndr m re fid w = Val (r, w') -> Q base w0 w'.
+Proof. exact merge_file_data_local. Qed.
+
+Theorem C03_load_parsed_local :
+  forall (T : tables) (LATEST name_definition_ref m : N) (filename : list N) (root : Parser.etree)
+         (st : Parser.pstate) (w : world) (f : N) (w' : world),
+    Core w ->
+    Load.load_parsed T LATEST name_definition_ref m filename root st w = Val (OK f, w') ->
+    forall x : id, Detached w x -> w_nodes w' x = w_nodes w x.
+Proof. exact load_parsed_local. Qed.
+
+Theorem C03_load_keeps_stale :
+  forall (T : tables) (tab_el tab_at tab_en : nametab) (check_fn : N -> list N -> res bool)
+         (float_parse : list N -> option N) (float_fmt : N -> list N)
+         (LATEST name_index name_definition_ref attr_schema_location : N) (root_attrs : list (N * cdata))
+         (m : N) (buffer filename : list N) (strict : bool) (w : world) (v : value2) (w' : world),
+    Core w ->
+    run_op2 T tab_el tab_at tab_en check_fn float_parse float_fmt LATEST name_index name_definition_ref
+      attr_schema_location root_attrs (OpLoad m buffer filename strict) w = Val (OK v, w') ->
+    (forall x : id, Detached w x -> w_nodes w' x = w_nodes w x) /\
+    (forall h : id, Detached w h -> Detached w' h) /\
+    (forall h : id, Detached w h -> ChainFiles w h -> ChainFiles w' h).
+Proof. exact load_keeps_stale. Qed.
+
+Theorem C03_stale_after_load :
+  forall (T : tables) (tab_el tab_at tab_en : nametab) (check_fn : N -> list N -> res bool)
+         (float_parse : list N -> option N) (float_fmt : N -> list N)
+         (LATEST name_index name_definition_ref attr_schema_location : N) (root_attrs : list (N * cdata))
+         (m : N) (buffer filename : list N) (strict : bool) (w : world) (v : value2) (w' : world)
+         (h : id) (o : op) (r1 : out value) (w1 : world),
+    Core w ->
+    run_op2 T tab_el tab_at tab_en check_fn float_parse float_fmt LATEST name_index name_definition_ref
+      attr_schema_location root_attrs (OpLoad m buffer filename strict) w = Val (OK v, w') ->
+    Detached w h -> ChainFiles w h -> principal o = Some h -> place_dependent o = true ->
+    Inv.run T tab_el tab_en check_fn LATEST root_attrs o w' = Val (r1, w1) -> w1 = w' /\ failed r1.
+Proof. exact stale_after_load. Qed.
+
+Theorem C03_stale_histories2_then_load :
+  forall (T : tables) (tab_el tab_at tab_en : nametab) (check_fn : N -> list N -> res bool)
+         (float_parse : list N -> option N) (float_fmt : N -> list N)
+         (LATEST name_index name_definition_ref attr_schema_location : N) (root_attrs : list (N * cdata))
+         (l : list op2) (w : world) (m : N) (buffer filename : list N) (strict : bool)
+         (v : value2) (w' : world) (h : id) (o : op) (r1 : out value) (w1 : world),
+    run_ops2 T tab_el tab_at tab_en check_fn float_parse float_fmt LATEST name_index name_definition_ref
+      attr_schema_location root_attrs l empty_world = Val w ->
+    clean_stale_ops2 T tab_el tab_at tab_en check_fn float_parse float_fmt LATEST name_index
+      name_definition_ref attr_schema_location root_attrs l empty_world = true ->
+    run_op2 T tab_el tab_at tab_en check_fn float_parse float_fmt LATEST name_index name_definition_ref
+      attr_schema_location root_attrs (OpLoad m buffer filename strict) w = Val (OK v, w') ->
+    Detached w h -> principal o = Some h -> place_dependent o = true ->
+    Inv.run T tab_el tab_en check_fn LATEST root_attrs o w' = Val (r1, w1) ->
+    Detached w' h /\ w_nodes w' h = w_nodes w h /\ w1 = w' /\ failed r1.
+Proof. exact stale_histories2_then_load. Qed.
 
 (* ---------- the finding: an error after the point of no return leaves an orphan ---------- *)
 Theorem C03_failed_reparent_refuted :
